@@ -8,7 +8,7 @@ ID = 'C06'
 LEVEL = 'fault_enumeration'
 INJECT = True
 RULE = ('case = (persistent worker class, 0-5 items of which one may be a poison item that makes the target raise, close or not, ending {graceful terminate at the '
-        'n-th traced line of the child loop, SIGKILL/SIGTERM at the n-th line (process/remote), own end, forced terminate of a child stuck in an item while swallowing the termination exception, SIGKILL of the remote child while the parent-side forwarding thread is held at its m-th traced line}, results pipe {default, caller-supplied Pipe() as the '
+        'n-th traced line of the child loop, SIGKILL/SIGTERM at the n-th line (process/remote), own end, forced terminate of a child stuck in an item while swallowing the termination exception, the remote host vanishing after k answers (control connection reset or closed, data connection silent for ever; played by the harness) followed by terminate(t, force=True), SIGKILL of the remote child while the parent-side forwarding thread is held at its m-th traced line}, results pipe {default, caller-supplied Pipe() as the '
         'Pool does}, consumer {reads after death, already iterating results_iter() (and hence blocked in next_result()) when the end comes}). Oracle: the values read after death are exactly E[:k] of the expected sequence; next_result() then raises queue.Empty and results_iter() '
         'stops (blocking is the violation); on a supplied pipe a multiplexing reader gets an end marker or EOF and the raw counters are 1..k; a worker that ended '
         'by its own choice delivered all of E. Non-trivial = landing confirmed and >=1 item enqueued; distinct = distinct (kind, items, close, pipe, ending, n).')
@@ -17,7 +17,7 @@ ASSUMPTIONS = ['line-level landing points in the work thread of the child; the p
 SHRINK = 'none'
 TIME_BUDGET = {'quick': 170, 'thorough': 1700}
 REQUIRED = {'quick': {'landed_with_items': 150, 'land:_send_result': 10, 'land:_cleanup': 5, 'pipe:supplied': 100, 'mode:kill': 40, 'land:forwarding_thread': 60, 'unpicklable_partial_result': 40,
-                      'forced_terminate_of_stuck_child': 40, 'consumer_blocked_before_death': 100},
+                      'forced_terminate_of_stuck_child': 40, 'consumer_blocked_before_death': 100, 'host_vanished': 60},
             'thorough': {'landed_with_items': 1500, 'land:_send_result': 100, 'land:_cleanup': 50}}
 
 
@@ -47,7 +47,11 @@ def strategy(tier):
         'items': st.builds(lambda a, b: a + ['STUCK'] + b, st.lists(st.sampled_from([1, 2, ['T', 5]]), max_size=3), st.lists(st.sampled_from([3, 4]), max_size=1)),
         'close': st.booleans(), 'pipe': st.sampled_from(['default', 'supplied']), 'consumer': st.sampled_from(['late', 'early']),
         'inject': st.just({'mode': 'forced_terminate_of_stuck_child'}), 'term_timeout': st.sampled_from([0, 0.3])})
-    return st.one_of(_child_strategy(), _child_strategy(), _child_strategy(), fwd, unp, forced)
+    # the remote host vanishes (control connection reset / closed, data connection silent for ever) after answering k inputs (engine FAKEHOST)
+    vanished = st.fixed_dictionaries({
+        'vanished_host': st.just(True), 'kind': st.just('p_remote'), 'answers': st.integers(0, 3), 'more': st.integers(0, 2), 'ctrl': st.sampled_from(['rst', 'fin']),
+        'pipe': st.sampled_from(['default', 'supplied']), 'consumer': st.sampled_from(['late', 'early']), 'term_timeout': st.sampled_from([0, 0.3, 1])})
+    return st.one_of(_child_strategy(), _child_strategy(), _child_strategy(), fwd, unp, forced, vanished)
 
 
 def _child_strategy():
@@ -84,7 +88,144 @@ def _front_census(case, ctx):
     return cache[key]
 
 
+def run_vanished(case, ctx):
+    import queue
+    import threading
+    import time
+    import multiprocessing.connection as mpc
+    import fakehost
+    import vtargets
+    from core import bounded, Blocked, pid_alive
+    from pyworkers.persistent_remote import PersistentRemoteWorker
+    from pyworkers.utils import Pipe
+    out = Out()
+    out.label('kind:p_remote', 'mode:host_vanished', 'pipe:' + case['pipe'])
+    if pid_alive(fakehost.FAKE_PID):
+        out.excluded = 'the pid reserved for the fake host exists'
+        return out
+    k = case['answers']
+    items = list(range(1, k + case['more'] + 1))
+    E = [IC.enc(('r', x)) for x in items[:k]]
+    early = case['consumer'] == 'early' and case['pipe'] == 'default'
+    site = f'host_vanished:ctrl_{case["ctrl"]}:data_silent' + (':consumer_reading_before_death' if early else '')
+    host = fakehost.FakeHost(answers=k, ctrl=case['ctrl'], fn=vtargets.item_or_raise)
+    pipe = Pipe() if case['pipe'] == 'supplied' else None
+    w = None
+    got = {'v': [], 'end': None}
+    try:
+        try:
+            w = bounded(PersistentRemoteWorker, 20, vtargets.item_or_raise, host=host.addr, results_pipe=pipe)
+        except BaseException as e:
+            out.excluded = 'constructor failed against the fake host: ' + type(e).__name__
+            return out
+        th = None
+        if early:
+            out.label('consumer_blocked_before_death')
+
+            def consume():
+                try:
+                    for v in w.results_iter():
+                        got['v'].append(IC.enc(v))
+                        if len(got['v']) > 50:
+                            break
+                    got['end'] = 'stopped'
+                except BaseException as e:
+                    got['end'] = 'raised:' + type(e).__name__
+            th = threading.Thread(target=consume, daemon=True)
+            th.start()
+        for x in items:
+            w.enqueue(x)
+        if not host.vanished.wait(15):
+            out.excluded = 'fake host did not reach its vanishing point: ' + repr(host.log)
+            return out
+        time.sleep(0.2)
+        out.label('host_vanished')
+        out.nontrivial = True
+        t0 = time.monotonic()
+        try:
+            r = bounded(w.terminate, 30, timeout=case['term_timeout'], force=True)
+        except Blocked:
+            r = 'blocked'
+        except BaseException as e:
+            r = 'raised:' + type(e).__name__
+        el = round(time.monotonic() - t0, 2)
+        try:
+            dead = bounded(w.is_alive, 10) is False
+        except BaseException:
+            dead = False
+        out.key = dict(case)
+        out.obs = {'site': site, 'terminate': repr(r), 'elapsed': el, 'dead': dead, 'items': items, 'answers': k}
+        if not dead:
+            # C04's business (forced terminate must leave the worker dead); the stream of a live worker is not judged here
+            out.label('not_dead')
+            return out
+        stream, end = None, None
+        if pipe is not None:
+            raw, ep = [], pipe.parent_end
+            t_end = time.monotonic() + 30
+            while True:
+                left = t_end - time.monotonic()
+                if left <= 0 or not mpc.wait([ep], left):
+                    end = 'blocked'
+                    break
+                try:
+                    m = ep.recv()
+                except (EOFError, OSError):
+                    end = 'eof'
+                    break
+                raw.append(m)
+                if isinstance(m, tuple) and len(m) == 4 and m[1] is False:
+                    end = 'marker'
+                    break
+            stream = [IC.enc(m[2]) for m in raw if isinstance(m, tuple) and len(m) == 4 and m[1] is True]
+            counters = [m[0] for m in raw if isinstance(m, tuple) and len(m) == 4 and m[1] is True]
+            if counters != list(range(1, len(counters) + 1)):
+                out.viol('raw_counters_not_consecutive', site, repr(counters))
+        elif early:
+            th.join(30)
+            if th.is_alive():
+                end = 'blocked'
+            else:
+                stream, end = list(got['v']), got['end']
+        else:
+            def drain():
+                return [IC.enc(v) for v in w.results_iter()]
+            try:
+                stream, end = bounded(drain, 30), 'stopped'
+            except Blocked:
+                end = 'blocked'
+            except BaseException as e:
+                end = 'raised:' + type(e).__name__
+        if end == 'blocked':
+            out.viol('stream_never_ends', site + ':' + case['pipe'], 'the worker is dead (terminate returned, is_alive() False) but reading its results blocks: no end marker, no EOF')
+        elif isinstance(end, str) and end.startswith('raised:'):
+            out.viol('stream_read_' + end, site, 'results_iter()/next_result() raised instead of ending')
+        if stream is not None and stream != E[:len(stream)]:
+            out.viol('not_a_prefix', site, f'expected a prefix of {E!r}, got {stream!r}')
+        if end == 'stopped' and pipe is None:
+            try:
+                bounded(w.next_result, 30)
+                out.viol('read_after_end_value', site, 'next_result() after the end of the stream returned a value')
+            except queue.Empty:
+                pass
+            except Blocked:
+                out.viol('read_after_end_blocked', site, 'next_result() after the end of the stream of a dead worker must raise queue.Empty')
+            except BaseException as e:
+                out.viol('read_after_end_raised:' + type(e).__name__, site, '')
+        out.obs.update({'stream': stream, 'end': end, 'expected': E})
+    finally:
+        host.close()
+        if w is not None:
+            try:
+                bounded(w.terminate, 10, timeout=0, force=True)
+            except BaseException:
+                pass
+    return out
+
+
 def run_case(case, ctx):
+    if case.get('vanished_host'):
+        return run_vanished(case, ctx)
     out = Out()
     inj = dict(case['inject'])
     kind = case['kind']
